@@ -227,7 +227,7 @@ def future_resolution(chk: Check) -> None:
     from ..rules import subsumed_helpers
     sub_ = subsumed_helpers(prog)
     for c in [proc] + prog.subclasses(proc):
-        for f in list(c.vmethods.values()):
+        for f in list(c.emethods.values()):
             if id((getattr(f, 'origin', None) or f).node) in sub_:
                 continue   # a private helper inlined at every call site: its writes are examined as part of its callers
             for g in [f] + list(f.nested.values()):
@@ -411,25 +411,22 @@ def close_once(chk: Check) -> None:
         last_name(c) == 'call_with_super_check' and c.args and norm(c.args[0]) == 'self.on_terminated' for c in walk_shallow(n.expr()) if isinstance(c, ast.Call))]
     chk.ob('DOM-on-terminated', tt, len(term) >= 1, 'transition_to calls on_terminated', kind='site-present')
     enters = [n for n in cfg.nodes if node_has_call(n, '_enter_next_state')]
-    tests = [t for t in cfg.nodes if t.kind == 'test' and 'is_terminal()' in norm(t.ast.test)]
-    ok = bool(tests) and bool(term)
-    if ok:
-        t = tests[0]
-        # the test is reached after every successful entry, its true branch calls on_terminated, and it holds exactly when terminal
-        for e in enters:
-            ok &= cfg.must_pass(e, [cfg.exit], lambda m: m is t, edge_ok=no_exc)
-        true_side = cfg.reachable([s for s, l in t.succ if l == 'true'], include_src=True, edge_ok=no_exc)
-        ok &= all(n.id in true_side for n in term)
-        # ... and on EVERY path from there (no further condition nested inside: a terminal state entered from a terminal one -- the
-        # failed-transition path -- is terminated too, else it is never closed)
-        ok &= all(cfg.must_pass(s_, [cfg.exit], lambda m: m in term, edge_ok=no_exc) for s_, l_ in t.succ if l_ == 'true')
-        atoms_false = ff.cond_atoms(t.ast.test, False)
-        atoms_true = ff.cond_atoms(t.ast.test, True)
-        ok &= ('T', 'self._state.is_terminal()') in atoms_true
-        # "iff": no further condition may be attached (e.g. skipping it for a failed transition would leave the process open)
-        conj = t.ast.test.values if isinstance(t.ast.test, ast.BoolOp) and isinstance(t.ast.test.op, ast.And) else [t.ast.test]
-        allowed = {('notnone', 'self._state'), ('T', 'self._state'), ('T', 'self._state.is_terminal()'), ('notnone', 'self._state.is_terminal()')}
-        ok &= all(ff.cond_atoms(c, True) and ff.cond_atoms(c, True) <= allowed for c in conj)
+    # decision table over (there is a current state, it is terminal), from every successful state entry to the normal exit: on_terminated is called on every
+    # path when the state is terminal -- whatever else is true, e.g. "this is the transition that recovers from a failed one" -- and on none when it is not
+    # (the test may be written either way round, split, or sit in a private helper)
+    from ..decisions import paths_under
+    ok = bool(term) and bool(enters)
+    IS_T, IS_N = 'self._state.is_terminal()', 'self._state is None'
+    for e in enters:
+        starts = [t_ for t_, l_ in e.succ if l_ not in ('exc', 'uncaught', 'handler')]
+        for st_ in starts:
+            yes = [p_ for p_ in paths_under(ff, {IS_T: True, IS_N: False}, start=st_, frozen=['self._state']) if p_[-1] is cfg.exit]
+            no = [p_ for p_ in paths_under(ff, {IS_T: False, IS_N: False}, start=st_, frozen=['self._state']) if p_[-1] is cfg.exit]
+            # (a later entry on the same path -- the StateEntryFailed re-entry -- starts its own table)
+            yes = [p_ for p_ in yes if not any(m in enters for m in p_[1:])]
+            no = [p_ for p_ in no if not any(m in enters for m in p_[1:])]
+            ok &= bool(yes) and all(any(m in term for m in p_) for p_ in yes)
+            ok &= all(not any(m in term for m in p_) for p_ in no)
     chk.ob('DOM-on-terminated', tt, ok, 'after every successful state entry (including the StateEntryFailed re-entry) on_terminated is called iff the '
            'state entered is terminal', kind='called-iff-terminal')
     ot = prog.func('processes.Process.on_terminated')
